@@ -1,6 +1,6 @@
 /-
 Model of the client-facing request machine of `bqskit/runtime/detached.py`
-(`DetachedServer`) as it is after the `fix:` commit eb84cdb, of the run loop of
+(`DetachedServer`) as it is after the `fix:` commits eb84cdb, 3a23d26 and 9f2bad4, of the run loop of
 `bqskit/runtime/base.py` (`ServerBase.run`: an exception in a handler ->
 `handle_system_error` -> `handle_shutdown`), of the error path
 worker -> manager -> server (`worker.py:_try_step_next_ready_task`,
@@ -68,6 +68,7 @@ inductive Out where
   | status (c : Conn) (s : CStat)
   | cancelAck (c : Conn)
   | errorTo (c : Conn) (msg : Nat)
+  | errorNow (c : Conn) (msg : Nat)   -- `conn.send((ERROR, msg))` written by the handler itself
   | resultTo (c : Conn) (v : Nat)
   | logTo (c : Conn) (msg : Nat)
   | ready (c : Conn)
@@ -183,7 +184,7 @@ def notMine (s : Srv) (c : Conn) (t : Tid) : Except Err Bool :=
 def handleRequest (s : Srv) (c : Conn) (t : Tid) : Except Err Srv :=
   match notMine s c t with
   | .error e => .error e
-  | .ok true => handleDisconnect (s.emit (.errorTo c 0)) c      -- 'Unknown task.'; Bad client
+  | .ok true => handleDisconnect (s.emit (.errorNow c 0)) c     -- 'Unknown task.' sent directly (fix 9f2bad4); Bad client
   | .ok false =>
     match get? s.tasks t with
     | none => .error .keyError
@@ -251,6 +252,12 @@ def routeUp (s : Srv) (m : Mid) (mk : Conn → Out) : Except Err Srv :=
     | none => .error .keyError
     | some (_, c) => .ok (s.emit (mk c))
 
+/-- `handle_error` (tuple payload), after fix 3a23d26:
+`if tid not in self.mailbox_to_task_dict or tid not in self.mailboxes: return` -/
+def handleError (s : Srv) (m : Mid) (msg : Nat) : Except Err Srv :=
+  if (get? s.m2t m).isNone || (get? s.boxes m).isNone then .ok s
+  else routeUp s m (fun c => .errorTo c msg)
+
 def handleConnect (s : Srv) (c : Conn) : Except Err Srv :=
   .ok ((s.emit .downImportPath).emit (.ready c))
 
@@ -266,7 +273,7 @@ def step (s : Srv) (e : Ev) : Except Err Srv :=
   | .cancel c t => handleCancel s c t
   | .disconnect c => handleDisconnect s c
   | .result m v => handleResult s m v
-  | .error m msg => routeUp s m (fun c => .errorTo c msg)
+  | .error m msg => handleError s m msg
   | .log m msg => routeUp s m (fun c => .logTo c msg)
 
 /-- `handle_system_error` + `handle_shutdown` as far as clients see it. -/
@@ -385,9 +392,10 @@ def spec (a : Abs) : Req → Abs × List Reply
     | _ => (a, [])
   | .error none _ => (a, [])
   | .error (some t) msg =>
-    match (a.task t).owner with
-    | some o => (a, [.errorTo o msg])
-    | none => (a, [])
+    match a.task t with
+    | .running o _ => (a, [.errorTo o msg])
+    | .done o _ => (a, [.errorTo o msg])
+    | _ => (a, [])             -- cancelled, delivered, unknown: discarded
   | .log none _ => (a, [])
   | .log (some t) msg =>
     match (a.task t).owner with
@@ -411,6 +419,7 @@ def Out.reply? : Out → Option Reply
   | .status c s => some (.status c s)
   | .cancelAck c => some (.cancelAck c)
   | .errorTo c m => some (.errorTo c m)
+  | .errorNow c m => some (.errorTo c m)
   | .resultTo c v => some (.resultTo c v)
   | .logTo c m => some (.logTo c m)
   | .ready c => some (.ready c)
@@ -419,8 +428,27 @@ def Out.reply? : Out → Option Reply
 
 def clientReplies (out : List Out) : List Reply := out.filterMap Out.reply?
 
+def Reply.isClose : Reply → Bool
+  | .close _ => true
+  | _ => false
+
 def Reply.conn : Reply → Conn
   | .status c _ | .cancelAck c | .errorTo c _ | .resultTo c _ | .logTo c _ | .ready c | .close c => c
+
+/-- What really reaches the clients of a handler's client-visible effects: what the handler
+writes itself (`errorNow`) and `close` always; a queued message (`outgoing.put`) only if the
+handler does not close that connection afterwards - `send_outgoing` skips closed connections
+and looks at the queue after the handler returned. -/
+def writtenOne (out : List Out) (o : Out) : Option Reply :=
+  match o with
+  | .close c => some (.close c)
+  | .errorNow c m => some (.errorTo c m)
+  | o =>
+    match o.reply? with
+    | some r => if out.contains (.close r.conn) then none else some r
+    | none => none
+
+def writtenReplies (out : List Out) : List Reply := out.filterMap (writtenOne out)
 
 /-! ### error bubbling: worker -> manager* -> server, and the client's receive loop -/
 
@@ -507,18 +535,63 @@ def recvHandle : List CMsg → Option Reply → COut
 
 /-- outcome of `Compiler._recv_log_error_until_empty` (run before every request is sent) -/
 inductive PreOut where
-  | clean                     -- pipe empty: the request goes out
+  | clean                     -- nothing but LOG records were pending: the request goes out
   | raised (msg : Nat)        -- a pending ERROR: RuntimeError(payload)
-  | attributeError            -- a pending LOG: `payload.name` on pickled bytes
   | unexpected                -- any other pending message: RuntimeError('Unexpected message type')
 deriving DecidableEq, Repr
 
-/-- `_recv_log_error_until_empty` as it is: the LOG branch reads `payload.name` although the
-runtime ships `pickle.dumps(record)` (known finding), so the first pending message decides. -/
+/-- `_recv_log_error_until_empty` after fix 131dac7: pending LOG records are unpickled and
+emitted like in the receive loop, the first other pending message decides. -/
 def preDrain : List CMsg → PreOut
   | [] => .clean
-  | .log _ :: _ => .attributeError
+  | .log _ :: rest => preDrain rest
   | .error m :: _ => .raised m
   | .other _ :: _ => .unexpected
+
+/-- what the caller of `Compiler._send_recv` gets (status / result / cancel): every exception
+below it - the RuntimeError of an ERROR message included - is replaced by
+`RuntimeError('Server connection unexpectedly closed.') from e` and the connection is dropped;
+the original text survives only as `__cause__`. -/
+inductive ApiOut where
+  | returned (r : Reply)
+  | wrapped (cause : Option Nat)   -- top-level text is the fixed string; `cause` = ERROR text if any
+  | blocked
+deriving DecidableEq, Repr
+
+/-- `_send_recv` with `pending` messages in the pipe when the call starts and `arriving`
+messages after the request was sent -/
+def sendRecv (pending arriving : List CMsg) : ApiOut :=
+  match preDrain pending with
+  | .raised m => .wrapped (some m)
+  | .unexpected => .wrapped none
+  | .clean =>
+    match recvHandle arriving none with
+    | .returned r => .returned r
+    | .raised m => .wrapped (some m)
+    | .blocked => .blocked
+
+/-- how a `conn.send` of the outgoing thread (`ServerBase.send_outgoing`) can fail -/
+inductive SendExc where
+  | eof | connectionReset | brokenPipe | otherOSError   -- the peer is gone (EOFError / OSError)
+  | nonOSError                                          -- e.g. an unpicklable payload
+deriving DecidableEq, Repr
+
+/-- `except (EOFError, OSError): … continue` (fixes dfecb96, 9e98cc2) -/
+def outgoingSurvives : SendExc → Bool
+  | .eof | .connectionReset | .brokenPipe | .otherOSError => true
+  | .nonOSError => false
+
+/-- outcome of one `conn.send` -/
+inductive SendResult where
+  | skippedClosed | sent | failed (e : SendExc)
+deriving DecidableEq, Repr
+
+/-- one iteration of `send_outgoing` for a queued message to `c`: (thread still alive, server
+state afterwards).  Since fix 9e98cc2 the except branch only logs and continues: the tables are
+never touched from this thread; the main loop sees the EOF of `c` and disconnects it. -/
+def outgoingStep (s : Srv) (_c : Conn) (r : SendResult) : Bool × Srv :=
+  match r with
+  | .skippedClosed | .sent => (true, s)
+  | .failed e => (outgoingSurvives e, s)
 
 end BqVerif.Server
